@@ -78,6 +78,7 @@ def run_sessions(c, codecs, pids, n_random, n_exh, extra_reqs=(), big=False):
         c.violation("session crashed (%s): %s" % (reqs[kx].desc(), ans[kx][:160]), "session-crash",
                     {"stream": "dec", "request": lines[kx], "stderr": se})
     rs_req, rs_idx, it_req, it_idx, ml_req, ml_idx, ev_req, ev_idx = [], [], [], [], [], [], [], []
+    hp_req, hp_idx = [], []
     prem_seen = set()
     nontrivial = set()
     for i, (q, al) in enumerate(zip(reqs, ans)):
@@ -97,6 +98,13 @@ def run_sessions(c, codecs, pids, n_random, n_exh, extra_reqs=(), big=False):
             ev_req.append("Z %d %d %d %s %s %s %d %s %s" % (q.k, q.r, q.L, "1" if a.LN == "1" else "0", a.Hs, a.Ys, q.finish, a.PM or "-",
                                                             " ".join(map(str, q.esis if q.api == 0 else sorted(set(q.esis))))))
             ev_idx.append(i)
+        if (q.codec in (sessions.LDPC, sessions.P2D) and a.H is not None and a.HL is not None and (q.finish == 0 or a.PM is not None) and q.k + q.r <= 400
+                and a.P == 0 and a.Q == 0 and not any(f[0] in ("C01", "C03", "C04", "C10", "C16") for f in fails)):
+            # ownership ledger (LdpcHeap.v): library-owned blocks after set-up, after every call, after finish, after release
+            nent = sum(len(row) for row in a.H)
+            hp_req.append("X %d %d %d %s %s %d %d %d %s %s" % (q.k, q.r, (nent + 1023) // 1024, "1" if a.LN == "1" else "0", a.Hs, q.cb, q.api, q.finish, a.PM or "-",
+                                                               " ".join(map(str, q.esis if q.api == 0 else sorted(set(q.esis))))))
+            hp_idx.append(i)
         if fails or a.P != 0 or a.Q != 0:
             continue
         if q.codec in (sessions.RS28, sessions.RS2M):
@@ -171,6 +179,21 @@ def run_sessions(c, codecs, pids, n_random, n_exh, extra_reqs=(), big=False):
                 got = ml[j][2:].strip() if j < len(ml) else "?"
                 if got != want:
                     c.proof_failed.append({"correspondence": "dec/callback-log", "request": lines[i][:400], "c": want[:800], "model": got[:800], "model_request": ev_req[j][:3000]})
+                    break
+        if hp_req:
+            rc, mout, _ = vlib.sh([mexe], input="\n".join(hp_req) + "\n", timeout=3000)
+            ml = mout.splitlines()
+            c.cov["heap_ledgers_compared"] = c.cov.get("heap_ledgers_compared", 0) + len(hp_idx)
+            for j, i in enumerate(hp_idx):
+                a = ldpc.Ans(ans[i])
+                setup, calls, fin_, left = a.HL
+                nlib = sum(1 for ch in (a.E or "") if ch in "Ll")      # source entries holding a library-allocated block (the application's to free)
+                want = "R HL%d;%s;%s;%d=%d" % (setup, ",".join(map(str, calls)), "-" if fin_ is None else str(fin_), left, nlib)
+                got = ml[j].strip() if j < len(ml) else "?"
+                if got != want:
+                    c.proof_failed.append({"correspondence": "dec/heap-ledger", "request": lines[i][:400], "c": want[:800], "model": got[:800], "model_request": hp_req[j][:3000],
+                                           "note": "library-owned heap blocks of the decoder session (after set-up; after every submission call; after of_finish_decoding; "
+                                                   "left after of_release_codec_instance = decoded source symbols the application owns) differ from the ownership ledger LdpcHeap.v"})
                     break
         if ml_req:
             rc, mout, _ = vlib.sh([mexe], input="\n".join(ml_req) + "\n", timeout=3000)
